@@ -43,6 +43,31 @@ JSONSerializableTypeRegistry().register(datetime.date, lambda o: {JSON_TYPE_NAME
 JSONSerializableTypeRegistry().register(datetime.datetime, lambda o: {JSON_TYPE_NAME: "datetime.datetime", "value": o.isoformat()},
                                         lambda d: datetime.datetime.fromisoformat(d["value"]))
 
+@dataclass
+class Sensor(SubclassJSONSerializer):
+    """payload fields called like the keys a dispatcher might look at"""
+    type: str
+    json_type: str = "x"
+
+    def to_json(self):
+        return {**super().to_json(), "type": self.type, "json_type": self.json_type, "class": "Dog"}
+
+    @classmethod
+    def _from_json(cls, data, **kwargs):
+        return cls(data["type"], data["json_type"])
+
+
+# two modules that define serialisable classes with the same simple names
+import os as _os, sys as _sys, tempfile as _tempfile, importlib as _importlib
+_TMP = _tempfile.mkdtemp(prefix="c18_")
+_sys.path.insert(0, _TMP)
+for _m in ("c18_shapes_a", "c18_shapes_b"):
+    with open(_os.path.join(_TMP, _m + ".py"), "w") as _f:
+        _f.write("from dataclasses import dataclass\nfrom krrood.adapters.json_serializer import SubclassJSONSerializer\n\n\n@dataclass\nclass Point(SubclassJSONSerializer):\n    x: int\n\n"
+                 "    def to_json(self):\n        return {**super().to_json(), 'x': self.x}\n\n    @classmethod\n    def _from_json(cls, data, **kwargs):\n        return cls(data['x'])\n\n\n"
+                 "@dataclass\nclass NamedPoint(Point):\n    pass\n")
+_A, _B = _importlib.import_module("c18_shapes_a"), _importlib.import_module("c18_shapes_b")
+
 a = args()
 rng = random.Random(a.seed)
 rep = Report("C18", "leaves (None, bools, ints up to 10**300, floats incl. inf/-inf/1e-320/-0.0, unicode and escape-laden strings), "
@@ -50,8 +75,10 @@ rep = Report("C18", "leaves (None, bools, ints up to 10**300, floats incl. inf/-
 
 LEAVES = [None, True, False, 0, -1, 1, 2 ** 63, -2 ** 64, 10 ** 300, 0.0, -0.0, 1.5, 1e308, 1e-320, float("inf"), float("-inf"),
           "", "a", "é", "日本語", "\u0000", "퟿", "\"quoted\"", "back\\slash", "line\nbreak", "\U0001F600", " ", "null", "true", "1",
-          "__json_type__", "krrood.adapters.json_serializer.SubclassJSONSerializer"]
+          "__json_type__", "krrood.adapters.json_serializer.SubclassJSONSerializer", "Infinity", "-Infinity", "NaN", "inf", "nan", "None", "[]"]
 OBJECTS = [uuid.UUID(int=0), uuid.UUID("12345678-1234-5678-1234-567812345678"), uuid.uuid4(),
+           Sensor("camera"), Sensor("test.test_utils.test_json_serializer.Dog", "krrood.adapters.json_serializer.SubclassJSONSerializer"),
+           _A.Point(1), _B.Point(2), _A.NamedPoint(3), _B.NamedPoint(4), _A.Point(5),
            Route("r", 5), datetime.date(2020, 2, 29), datetime.datetime(2020, 2, 29, 12, 30, 1),
            Puppy("p", 0, "lab"), FrenchBulldog("f", 1, "fb", True), Animal("a", 1), Dog("d", 2, "lab"), Dog("d", 0), Bulldog("b", 3, "bull", False), Bulldog("", 0), Cat("c", 4, 7), Cat("é", -1)]
 
@@ -59,7 +86,7 @@ OBJECTS = [uuid.UUID(int=0), uuid.UUID("12345678-1234-5678-1234-567812345678"), 
 def exact_equal(x, y):
     if type(x) is not type(y):
         return False
-    if isinstance(x, Animal):
+    if isinstance(x, (Animal, Sensor, _A.Point, _B.Point)):
         return type(x) is type(y) and vars(x) == vars(y)
     if isinstance(x, list):
         return len(x) == len(y) and all(exact_equal(p, q) for p, q in zip(x, y))
